@@ -842,14 +842,13 @@ def free_run(shim, init, a, b):
 
             def go(i, limit):
                 name, k = f"P{i}", 0
-                while k < limit and not acquired(i):
-                    ev = advance(name)
-                    if ev is None:
-                        return
+                while k < limit:
+                    ev = advance(name)       # the process is parked at its next call: what it has printed so far is visible
+                    if ev is None or acquired(i):
+                        return               # never step a holder into its release
                     s.step(name)
                     steps.append(f"{i}:{ev.op}")
                     k += 1
-                advance(name)
             go(0, a); go(1, b)
             for _ in range(4):          # a process waiting for the guard burns its turn on refused flock attempts: alternate
                 go(0, 16); go(1, 16)
@@ -1208,7 +1207,9 @@ def run(ctx):
     # (d) scheduled real processes ---------------------------------------------------------------------
     real_schedules(ctx)
     ctx.cov["findings_seen_in_process"] = sorted(seen_slugs)
-    if ctx.broken and not ctx.violations:
+    if not ctx.violations:
+        # always (it is cheap: ~850 runs of two processes, a few seconds each way): an oracle that needs no model, and the
+        # search for a concrete schedule when the tie to the Lock model is broken
         free_exploration(ctx)
 
 
